@@ -90,14 +90,14 @@ Lemma ginv_gen s s' t p p' :
   (wpc p' = None \/ wpc p' = wpc p) ->
   (forall t', t' <> t -> lock s = Some t' -> nolate s -> once s <> ODone ->
      nolate s' /\ once s' <> ODone /\ reg s' = reg s /\ (running s = true -> running s' = true) /\
-     (forall w, fresh s w -> fresh s' w) /\ (forall w, w_name (gw s' w) = w_name (gw s w))) ->
+     (forall w, fresh s w -> fresh s' w) /\ (forall w, w_name (gw s' w) = w_name (gw s w) /\ w_tid (gw s' w) = w_tid (gw s w))) ->
   (forall t' n, t' <> t -> incall s t' n -> incall s' t' n) ->
   (forall t' q, t' <> t -> thr s t' q -> sdact q = true -> once s = OBusy -> once s' = OBusy) ->
   (stopped s = true -> stopped s' = true) ->
   (forall t' q, t' <> t -> thr s t' q -> late q = true ->
      (forall v, ord (heap s') v = ord (heap s) v) /\ (forall v, live s' v -> live s v) /\ (alldone s -> alldone s')) ->
   (forall t' w q, t' <> t -> thr s t' q -> wpc q = Some w ->
-     gw s' w = gw s w /\ (stopped s' = false -> owns s w -> owns s' w)) ->
+     samew (gw s' w) (gw s w) /\ (stopped s' = false -> owns s w -> owns s' w)) ->
   tinv s' t p' ->
   (once s' = ODone -> stopped s' = true /\ alldone s') ->
   (running s' = false -> alldone s') ->
@@ -126,7 +126,7 @@ Proof.
   - eapply sduniq_upd; eauto. apply G. intros S. destruct (Hsd S) as [A|[A B]]; auto. right. apply (g_oncefree _ G A).
   - eapply wuniq_upd; eauto. apply G.
   - intros t0 q Hq0. apply thr_upd in Hq0. destruct Hq0 as [[-> ->]|[Hne Hq0]]; auto.
-    eapply others_gen; eauto.
+    eapply (others_gen s s' t); eauto.
     + intros t' Hn L. destruct Hlk as [[A B]|[[A [B C]]|[A B]]]; congruence.
     + apply (g_tinv _ G); auto.
 Qed.
@@ -148,13 +148,13 @@ Proof. simpl. intros -> ->. reflexivity. Qed.
 
 Ltac gg G Ht p p' :=
   apply (ginv_gen _ _ _ p p' G Ht); try reflexivity; try solve [apply G]; simpl;
-  try solve [auto | intros; discriminate | intros; congruence
+  try solve [auto | intros; discriminate | intros; congruence | intros; split; [apply samew_refl|auto]
             | left; split; auto; let L := fresh in intros L; exfalso; eapply lock_not_holder; eauto ].
 
 Ltac o1_same :=
   let t' := fresh "t'" in let Hn := fresh in let L := fresh in let N := fresh in let O := fresh in
   intros t' Hn L N O; split; [try (apply nolateL_upd; auto)|]; split; [auto|]; split; [reflexivity|];
-  split; [auto|]; split; [let w := fresh in let F := fresh in intros w F; exact F|reflexivity].
+  split; [auto|]; split; [let w := fresh in let F := fresh in intros w F; exact F|split; reflexivity].
 
 Section Steps.
 Variables (s : st) (t : nat).
